@@ -39,7 +39,7 @@ ListV(xs) == [t |-> "list", xs |-> xs]
 \* a function value; self-contained ones can be recorded as outputs, one that mentions an unbound name cannot
 FnV(n, portable) == [t |-> "fn", n |-> n, portable |-> portable]
 
-Names == {"x", "y", "z", "w", "f", "g"}
+Names == {"x", "y", "z", "w", "f", "g", "u", "v", "c"}
 
 \* ------------------------------------------------------------------ the line alphabet
 \* text is what the conformance driver types; the model only uses the id
@@ -50,11 +50,12 @@ LineText == [bindx  |-> "x = 1",       bindx2 |-> "x = 2",  refx  |-> "x",      
              popen  |-> "w = (1 +",    pclose |-> "2)",     refw  |-> "w",        outw  |-> "output w",
              ropen  |-> "{a: 1,",      rclose |-> "b: 2}",
              outf   |-> "output f = v => v + nosuch",   outg |-> "output g = v => v + 1",
-             outf2  |-> "output f",    callg  |-> "g(1)",   callf |-> "f(1)"]
+             outf2  |-> "output f",    callg  |-> "g(1)",   callf |-> "f(1)",
+             nestl  |-> "v = [(u = [1, 2]), nope]",     bindc |-> "c = [7, 8, 9]",  refu |-> "u"]
 AllLines == DOMAIN LineText
 Commands == {"help", "quit", "exitc"}
 \* statements that are complete on one line
-Complete == {"bindx", "bindx2", "refx", "bindy", "outx", "outz", "blank", "refw", "outw", "outf", "outg", "outf2", "callg", "callf"}
+Complete == {"bindx", "bindx2", "refx", "bindy", "outx", "outz", "blank", "refw", "outw", "outf", "outg", "outf2", "callg", "callf", "nestl", "bindc", "refu"}
 
 Opens(l, b)  == IF (b = "(" /\ l = "popen") \/ (b = "[" /\ l = "lopen") \/ (b = "{" /\ l = "ropen") THEN 1 ELSE 0
 Closes(l, b) == IF (b = ")" /\ l = "pclose") \/ (b = "]" /\ l = "lclose") \/ (b = "}" /\ l = "rclose") THEN 1 ELSE 0
@@ -118,6 +119,12 @@ Exec(a) ==
     [] a[1] = "outf2"  -> OutRef("f")
     [] a[1] = "callg"  -> IF Bound("g") THEN /\ resp' = RV("value", IntV(2)) /\ UNCHANGED <<env, outs>> ELSE Fail
     [] a[1] = "callf"  -> Fail                         \* f unbound, or its body fails on the unbound name
+    \* a statement that fails after a nested assignment has been made: the nested binding stays (and keeps its value, whatever
+    \* is built on the heap afterwards), nothing else happens
+    [] a[1] = "nestl"  -> IF Bound("u") \/ Bound("v") THEN Fail
+                          ELSE /\ env' = [env EXCEPT !["u"] = ListV(<<IntV(1), IntV(2)>>)] /\ resp' = R("everr") /\ UNCHANGED outs
+    [] a[1] = "bindc"  -> Bind("c", ListV(<<IntV(7), IntV(8), IntV(9)>>))
+    [] a[1] = "refu"   -> Ref("u")
     [] a[1] = "blank"  -> /\ resp' = R("none") /\ UNCHANGED <<env, outs>>
     [] a[1] = "lopen"  -> /\ resp' = RV("value", ListV(<<IntV(1)>> \o [i \in 1..NItems(a) |-> IntV(2)] \o <<IntV(3)>>))
                           /\ UNCHANGED <<env, outs>>
@@ -144,7 +151,7 @@ Spec == Init /\ [][Next]_vars
 
 \* ------------------------------------------------------------------ properties of the session
 TypeOK == /\ acc \in Seq(AllLines) /\ done \in BOOLEAN
-          /\ \A n \in Names : env[n] = Unb \/ env[n].t \in {"int", "fn"}
+          /\ \A n \in Names : env[n] = Unb \/ env[n].t \in {"int", "fn", "list"}
 \* a binding made in the session is never changed or lost, whatever is typed afterwards
 BindingsImmutable == [][\A n \in Names : env[n] # Unb => env'[n] = env[n]]_vars
 \* recorded outputs are never dropped or reordered, and always carry the value the name is bound to
@@ -153,7 +160,8 @@ OutputsAreBindings == \A i \in 1..Len(outs) : env[outs[i][1]] = outs[i][2]
 \* a statement is being continued exactly when its text so far has an unclosed bracket
 ContinuationIsOpenBracket == acc # <<>> => Unbalanced(acc)
 \* a failed or abandoned statement leaves nothing behind
-ErrorsChangeNothing == [][resp'.k \in {"everr", "perr", "cont", "none", "help"} => env' = env /\ outs' = outs]_vars
+ErrorsChangeNothing == [][/\ ((resp'.k \in {"perr", "cont", "none", "help"}) => (env' = env /\ outs' = outs))
+                            /\ ((resp'.k = "everr") => (outs' = outs))]_vars   \* (a failed statement may leave the bindings its nested assignments made)
 \* only what can be handed to another program is ever recorded
 OutputsArePortable == \A i \in 1..Len(outs) : Portable(outs[i][2])
 =============================================================================
